@@ -216,6 +216,36 @@ func checkText(c Case, st *core.Stats) error {
 	if !core.SameFields(x, c.X.Apd()) {
 		return fmt.Errorf("formatting modified the decimal %v to %s", c.X, core.Show(x))
 	}
+	// Append writes the same text after whatever the caller's buffer holds, whatever spare
+	// capacity that buffer has (from none to several times the length of the output)
+	if !big {
+		n := len(c.X.Coeff)
+		lead := 0
+		if c.X.Exp < 0 && int(-c.X.Exp) > n {
+			lead = int(-c.X.Exp) - n
+		}
+		var appendErr error
+		core.Guard(st, func() {
+			for _, f := range []byte{'G', 'E', 'f', 'g', 'e'} {
+				if f == 'f' && (c.X.Exp <= -3000 || c.X.Exp >= 3000) {
+					continue
+				}
+				want := x.Text(f)
+				for _, spare := range []int{0, 1, n, 2 * n, 2*n + 1, 2*n + lead/2, n + lead + 1, 3*n + lead, len(want), len(want) + 1, 4096} {
+					buf := make([]byte, 2, 2+spare)
+					buf[0], buf[1] = 'a', 'b'
+					got := x.Append(buf, f)
+					if string(got) != "ab"+want {
+						appendErr = fmt.Errorf("Append(buffer with %d spare bytes, %q) of %v gives %q, Text gives %q", spare, f, c.X, trunc(string(got)), trunc(want))
+						return
+					}
+				}
+			}
+		})
+		if appendErr != nil {
+			return appendErr
+		}
+	}
 	for i, e := range encs {
 		p := parsers[i%len(parsers)]
 		var got *apd.Decimal
